@@ -191,6 +191,22 @@ pub fn num_f64_item(out: &mut Out, bv: &Value) {
                        if cls == "fa" { v.push(vec![]); }
                        v }
             };
+            // long argument lists (beyond the small-size paths of sorting / selection routines): 17..=26 distinct values, several orders
+            if cls == "fv" || cls == "fa" {
+                for n in 17..=26usize {
+                    let base: Vec<String> = (1..=n as i64).map(|k| if k % 5 == 0 { format!("{}.5", k) } else { (k * 2 - 9).to_string() }).collect();
+                    let orders: Vec<Vec<String>> = vec![base.iter().rev().cloned().collect(), base.clone(), { let mut r = base.clone(); r.rotate_left(n / 3); r },
+                                                        { let mut r = base.clone(); r.reverse(); r.rotate_left(n / 2); r }];
+                    for l in orders {
+                        let mut asg = Asg::default();
+                        asg.fns.insert(1, func.to_string());
+                        let mut args = Vec::new();
+                        let mut texts = Vec::new();
+                        for (i, a) in l.iter().enumerate() { let (t, s) = signed_arg(&mut asg, 10 + i, a); args.push(t); texts.push(s); }
+                        judge_num_f64(out, &format!("{}({})", name, texts.join(",")), &T::Call(cls.into(), 1, args), &asg, &pn, 0.0, ctx.clone(), claim.clone());
+                    }
+                }
+            }
             for l in lists {
                 let mut asg = Asg::default();
                 asg.fns.insert(1, func.to_string());
